@@ -125,8 +125,13 @@ CLAIMED.update({
             "design_ref": "DESIGN.md 3.7, 6 C05", "note": _CUBE_NOTE, "technique": _CUBE_TECH},
     "C13": {"text": "Cubes whose dimensions carry one or two extra axes (extents 1-4, several dimensions at once) are evaluated on both "
                     "cube types; the harness checks result.shape and cuts the block at every extra-axis position, and TLC judges each "
-                    "block against the aggregate of the corresponding 1-D slices.",
-            "design_ref": "DESIGN.md 3.7, 6 C13", "note": _CUBE_NOTE, "technique": _CUBE_TECH},
+                    "block against the aggregate of the corresponding 1-D slices. The scaffold itself is a specified algorithm "
+                    "(CubeAxes.tla): TLC checks, for every interleaving of the sub-cubes' deliveries, that there is one task per "
+                    "block, that a block holds the sub-cube of its own slices and that no cell is written twice; recorded "
+                    "scaffold_shape / shape / product() and the placement of self-naming sub-cubes by the real count() are "
+                    "validated against that model (Trace_CubeAxes).",
+            "design_ref": "DESIGN.md 3 (CubeAxes), 6 C13", "note": _CUBE_NOTE,
+            "technique": _CUBE_TECH + "; TLA+ state machine of the scaffold (CubeAxes.tla) model-checked by TLC with a rejected witness, and trace validation of the real cubes' scaffold attributes, task lists and block placement against it"},
     "C14": {"text": "Every (coordinates, rows) pair delivered by walk/interactions on 1-4 one-axis dimensions is an element of a logged "
                     "event; TLC requires the delivered multiset to equal the set of non-empty uncommon/marginal intersections with "
                     "exact increasing rows, nothing twice, no common category, nothing empty.",
